@@ -161,7 +161,7 @@ def gen_traj(rng, pm):
 
     n = rng.choice([2, 2, 3, 5, 10, 40, 120, 400]) if rng.random() < 0.5 else rng.randint(2, 120)
     split = rng.choice(['normal', 'normal', 'no-climb', 'no-descent', 'all-climb',
-                        'all-descent', 'no-cruise'])
+                        'all-descent', 'no-cruise', 'stale-counts'])
     if split == 'normal':
         nc = rng.randint(0, n // 2)
         nd = rng.randint(0, n - nc)
@@ -169,6 +169,11 @@ def gen_traj(rng, pm):
         nc, nd = 0, rng.randint(0, n)
     elif split == 'no-descent':
         nc, nd = rng.randint(0, n), 0
+    elif split == 'stale-counts':
+        # a trajectory resampled onto a coarser time grid keeps the phase counts of the
+        # original: climb and descent counts overlap (n_climb > n - n_descent)
+        nc = rng.randint(n // 2 + 1, n)
+        nd = rng.randint(n - nc + 1, n)
     elif split == 'all-climb':
         nc, nd = n, 0
     elif split == 'all-descent':
@@ -176,7 +181,7 @@ def gen_traj(rng, pm):
     else:
         nc = rng.randint(0, n)
         nd = n - nc
-    ncr = n - nc - nd
+    ncr = max(0, n - nc - nd)
     t = Trajectory(n, name='h')
     top = rng.uniform(6000, 25000) if rng.random() < 0.25 else rng.uniform(6000, 12500)
     alt = np.empty(n)
@@ -217,8 +222,23 @@ def gen_traj(rng, pm):
     t.heading = np.full(n, 45.0)
     t.starting_mass = float(t.aircraft_mass[0])
     t.total_fuel_mass = float(fuel0)
+    # optional phases (documented as legal: taxi, take-off, approach, idle are "normal" points
+    # with their own counters); the first climb / last descent points are relabelled
+    opt = {}
+    if rng.random() < 0.3:
+        if nc >= 2 and rng.random() < 0.7:
+            k_ = rng.randint(1, min(3, nc - 1))
+            opt['n_takeoff'] = k_
+            nc -= k_
+        if nd >= 2 and rng.random() < 0.5:
+            k_ = rng.randint(1, min(3, nd - 1))
+            opt['n_approach'] = k_
+            nd -= k_
+        for name_, v_ in opt.items():
+            setattr(t, name_, v_)
     t.n_climb, t.n_cruise, t.n_descent = nc, ncr, nd
     desc = {'n': n, 'split': split, 'n_climb': nc, 'n_cruise': ncr, 'n_descent': nd,
+            'optional_phases': opt,
             'zero_burn_segment': has_zero, 'stratospheric': bool(np.any(alt > 11000)),
             'top': float(alt.max())}
     return t, desc
